@@ -8,7 +8,7 @@ LAKE_TARGETS = ["Moclo.Props.C13"]
 THEOREMS = ["Moclo.C13." + t for t in [
     "rotate_right_moves_last_letters_to_front", "letter_position", "rotations_compose",
     "multiple_of_length_is_identity", "left_inverts_right", "right_inverts_left",
-    "track_follows_sequence", "feature_follows_sequence", "record_carried", "record_features"]]
+    "track_follows_sequence", "feature_follows_sequence", "record_carried", "record_features", "reading_order_rotates"]]
 # reductions under which a failing case stays a case of this property (see shrink.py)
 SHRINK = {"lists": ["feats"], "ints": ["k", "k2", "m"]}
 RULE = ("random records (length 1..40 with a tail to 400, mixed case / IUPAC letters) with feature tables "
